@@ -27,6 +27,7 @@ import (
 	"strconv"
 	"strings"
 	"sync"
+	"sync/atomic"
 	"time"
 	"unsafe"
 
@@ -34,6 +35,7 @@ import (
 	"github.com/plgd-dev/go-coap/v3/message/codes"
 	"github.com/plgd-dev/go-coap/v3/message/pool"
 	"github.com/plgd-dev/go-coap/v3/net/blockwise"
+	limitparallelrequests "github.com/plgd-dev/go-coap/v3/net/client/limitParallelRequests"
 	"github.com/plgd-dev/go-coap/v3/net/responsewriter"
 	"github.com/plgd-dev/go-coap/v3/options/config"
 	"github.com/plgd-dev/go-coap/v3/pkg/cache"
@@ -428,7 +430,9 @@ type c13Hang struct {
 	tokZ    int
 	cancel  context.CancelFunc
 	done    chan error
-	state   int // 0 queued in the limiter, 1 in flight, 2 returned
+	state   int // 0 queued in the limiter, 1 in flight, 2 returned, 3 cancelled and parked before cancelEndpoint (c13cancel.go)
+	park    *c13Park
+	granted bool // state 3: a releaseEndpoint has handed a slot to the parked request
 	dropped bool
 	acked   bool // pending entry gone (acknowledged, reset or expired)
 	mid     int
@@ -477,6 +481,9 @@ type c13Run struct {
 	nestIn      chan struct{}
 	nestRelease chan struct{}
 	contMid     map[int]bool
+	// c13cancel.go: requests parked at the limiter's scheduling point "ep-ctx-done"
+	parks    []*c13Park
+	parkNext atomic.Pointer[c13Park]
 }
 
 type c13Ping struct {
@@ -622,12 +629,15 @@ func newC13Run(le int) *c13Run {
 	}, getTok)
 	p.b = newC13Side("B", 65535+100, 0, p.ba, func(*c13Side) client.HandlerFunc { return p.serverHandler }, getTok)
 	p.ab.dst, p.ba.dst = p.b, p.a
+	limitparallelrequests.VerifSetYield(p.yield)
 	go p.ab.pump()
 	go p.ba.pump()
 	return p
 }
 
 func (p *c13Run) close() {
+	p.unparkAll()
+	limitparallelrequests.VerifSetYield(nil)
 	for _, l := range []*c13Link{p.ab, p.ba} {
 		l.mu.Lock()
 		l.stop = true
@@ -783,12 +793,12 @@ func (p *c13Run) limIn(k int) int {
 	p.nextR++
 	r := p.nextR
 	p.ev(true, fmt.Sprintf("LmArrive %d %d", r, k))
-	p.ev(true, "LmSettle")
+	p.lmSettle()
 	return r
 }
 func (p *c13Run) limOut(r int) {
 	p.ev(true, fmt.Sprintf("LmFinish %d", r))
-	p.ev(true, "LmSettle")
+	p.lmSettle()
 }
 
 func (p *c13Run) idle() bool {
@@ -978,10 +988,7 @@ func (p *c13Run) mark() {
 func (p *c13Run) release(h *c13Hang) {
 	p.inUse[h.key]--
 	p.limOut(h.r)
-	if q := p.queue[h.key]; len(q) > 0 {
-		p.queue[h.key] = q[1:]
-		p.grant(p.hangs[q[0]])
-	}
+	p.handOver(h.key)
 }
 
 func (p *c13Run) opHang(id int, k int, dropped bool, share int) {
@@ -1007,7 +1014,7 @@ func (p *c13Run) opHang(id int, k int, dropped bool, share int) {
 	p.hangs[id] = h
 	p.order = append(p.order, id)
 	p.ev(true, fmt.Sprintf("LmArrive %d %d", h.r, k))
-	p.ev(true, "LmSettle")
+	p.lmSettle()
 	go func() {
 		resp, err := p.a.cc.Do(req)
 		if err == nil {
@@ -1050,7 +1057,7 @@ func (p *c13Run) waitQueued() {
 
 func (p *c13Run) opCancel(id int) {
 	h, ok := p.hangs[id]
-	if !ok || h.state == 2 {
+	if !ok || h.state == 2 || h.state == 3 {
 		return
 	}
 	p.mark()
@@ -1072,7 +1079,7 @@ func (p *c13Run) opCancel(id int) {
 		}
 		h.state = 2
 		p.ev(true, fmt.Sprintf("LmCancel %d", h.r))
-		p.ev(true, "LmSettle")
+		p.lmSettle()
 		return
 	}
 	h.state = 2
@@ -1457,6 +1464,16 @@ func (p *c13Run) applyOne(op string) {
 		p.opPingFail(arg(1))
 	case "nest":
 		p.opNest()
+	case "obscancelfail":
+		mode := ""
+		if len(f) > 2 {
+			mode = f[2]
+		}
+		p.opObsCancelFail(arg(1), mode)
+	case "cpark":
+		p.opPark(arg(1))
+	case "cresume":
+		p.opResume(arg(1))
 	}
 	if dup {
 		p.settle()
@@ -1482,7 +1499,9 @@ func (p *c13Run) opPingFail(id int) {
 // finish: every exchange still open is ended, then everything is aged past its deadline and ticked.
 func (p *c13Run) finish() {
 	for _, id := range p.order {
-		if h := p.hangs[id]; h.state != 2 {
+		if h := p.hangs[id]; h.state == 3 {
+			p.opResume(id) // (an older request cancelled just before has handed its slot to this one)
+		} else if h.state != 2 {
 			p.opCancel(id)
 		}
 	}
@@ -1765,7 +1784,7 @@ func sortInts(xs []int) { sort.Ints(xs) }
 func runC13(a runArgs) error {
 	e := NewEmitter("C13", "Conn.Run")
 	e.ShardSize = 40
-	e.Rule = "A case is one history of exchange-level operations on a back-to-back pair of real udp/client.Conn (plain, block-wise up/down, observe + notifications + cancel, ping, one-way; ending by success, silence+cancel, deadline, reset, malformed block, duplicate token, queued in the limiter then cancelled; duplicates per direction), all 11 table sizes of both connections read after every operation, after cancelling what still hangs, and after ageing + MAX_RETRANSMIT+1 far ticks. distinct = distinct descriptor; non-trivial = at least one operation that does not end by plain success (nest = a copy of a request contending for the per-ID lock counts). Sweep: one pkg/cache.Cache swept once; non-trivial = some but not all entries expired, or more than 32. Locks: a Lock/TryLock/Unlock script on one real MutexMap, entries + reference counts + goroutine states after every call; non-trivial = some call finds its key taken. MidRace: exchanges with message-ID continuations on one real connection, housekeeping ticks, one of them interrupted between Range's fetch and the callback with exchanges ending/starting there; non-trivial = contains an interrupted tick."
+	e.Rule = "A case is one history of exchange-level operations on a back-to-back pair of real udp/client.Conn (plain, block-wise up/down, observe + notifications + cancel, ping, one-way; ending by success, silence+cancel, deadline, reset, malformed block, duplicate token, queued in the limiter then cancelled -- also held between the select of acquireEndpoint and cancelEndpoint while a finishing request hands its slot over; Cancel of an observation whose deregistration exchange fails; duplicates per direction), all 11 table sizes of both connections read after every operation, after cancelling what still hangs, and after ageing + MAX_RETRANSMIT+1 far ticks. distinct = distinct descriptor; non-trivial = at least one operation that does not end by plain success (nest = a copy of a request contending for the per-ID lock counts). Sweep: one pkg/cache.Cache swept once; non-trivial = some but not all entries expired, or more than 32. Locks: a Lock/TryLock/Unlock script on one real MutexMap, entries + reference counts + goroutine states after every call; non-trivial = some call finds its key taken. MidRace: exchanges with message-ID continuations on one real connection, housekeeping ticks, one of them interrupted between Range's fetch and the callback with exchanges ending/starting there; non-trivial = contains an interrupted tick."
 	rng := NewRng(a.seed)
 	add := func(le int, ops []string, bucket string) {
 		coq, ok, bad := runC13History(le, ops)
@@ -1876,6 +1895,20 @@ func runC13(a runArgs) error {
 		{"40*get"}, {"34*upab:1"}, {"34*downab:1"}, {"20*get", "tick:300", "20*get", "tick:100", "35*Dget"},
 		// a retransmitted copy reaches handleReq while the handler of the first copy is busy in a nested exchange
 		{"nest"}, {"nest", "nest", "get"}, {"hack:1:0", "nest", "tick:100", "nest", "cancel:1"},
+		// round 4: a Cancel whose deregistration exchange fails (peer silent + caller gives up / deadline / write refused)
+		{"obs:ok", "obscancelfail:0"}, {"obs:ok", "obscancelfail:0:dl"}, {"obs:ok", "obscancelfail:0:w"}, {"obs:ok", "obscancelfail:0:pre"},
+		{"obs:ok", "notify:0:2:1", "obscancelfail:0", "notify:0:2:0", "obscancel:0"}, {"obs:ok", "obs:ok", "obscancelfail:1:w", "obscancel:0", "obscancelfail:1"},
+		{"obs:ok", "obscancelfail:0:dl", "obs:ok", "obscancelfail:1:pre", "get"},
+		{"obs:ok", "obs:ok", "obs:ok", "obs:ok", "obscancelfail:0:pre", "obscancelfail:1:pre", "obscancelfail:2:pre", "obscancelfail:3:pre"},
+		// round 4: a queued request is cancelled and delayed between the select of acquireEndpoint and cancelEndpoint;
+		// the request holding the slot ends inside that window (its releaseEndpoint hands the slot to the delayed one)
+		{"hack:1:0", "hack:2:0", "cpark:2", "cancel:1", "cresume:2"}, {"hack:1:0", "hack:2:0", "cpark:2", "cresume:2", "cancel:1"},
+		{"hack:1:0", "hack:2:0", "cpark:2"}, {"hack:1:0", "hack:2:0", "hack:3:0", "cpark:2", "cancel:1", "cresume:2", "cancel:3"},
+		{"hack:1:0", "hack:2:0", "hack:3:0", "cpark:3", "cancel:1", "cancel:2", "cresume:3"},
+		{"hack:1:0", "hack:2:0", "hack:3:0", "cpark:2", "cpark:3", "cancel:1", "cresume:3", "cresume:2"},
+		{"hack:1:0", "hack:2:0", "hack:3:0", "cpark:2", "cpark:3", "cancel:1", "cresume:2", "cresume:3"},
+		{"hack:1:0", "hack:2:0", "cpark:2", "cancel:1", "get", "hack:3:0", "cresume:2", "cancel:3"},
+		{"hack:1:0", "hack:2:0", "hack:3:1", "cpark:2", "cancel:1", "tick:100", "cresume:2", "hack:4:0"},
 	}
 	for _, le := range []int{1, 0} {
 		for _, ops := range fixed {
@@ -1911,6 +1944,9 @@ func runC13(a runArgs) error {
 				at := r2.Intn(len(ops) + 1)
 				ops = append(ops[:at], append([]string{"nest"}, ops[at:]...)...)
 			}
+		}
+		if r3 := rng.Fork(); r3.Chance(45) {
+			ops = c13Round4(r3, ops)
 		}
 		add(le, ops, "random")
 	}
